@@ -60,7 +60,7 @@ fn server(mut raw: UnixStream, id: usize, acc_key: Vec<u8>, chal: Vec<u8>, sc: [
     let mut out = SrvOut::default();
     raw.set_read_timeout(Some(Duration::from_secs(3))).ok();
     let (ident, spk) = identity(id);
-    let (_, spk_other) = identity(3 - id);
+    let (_, spk_other) = identity(if id == 1 { 2 } else { 1 });
     let acceptor = match native_tls::TlsAcceptor::new(ident) { Ok(a) => a, Err(e) => { out.note = format!("acceptor {:?}", e); return out; } };
     let mut tls = match acceptor.accept(raw) { Ok(t) => t, Err(_) => { out.note = "tls accept failed".into(); return out; } };
     out.m1 = match read_der(&mut tls) { Some(m) => m, None => { out.note = "no m1".into(); return out; } };
@@ -195,7 +195,7 @@ fn base_case(r: &mut Rng, i: usize) -> Case {
     if i % 4 < 2 { flags |= 1; }
     let mut ti = av(2, &utf16("DOM")); ti.extend(av(1, &utf16("SRV"))); ti.extend(av(7, &r.bytes(8))); ti.extend(av(0, &[]));
     let scv = r.bytes(8); let mut sc = [0u8; 8]; sc.copy_from_slice(&scv);
-    Case { dom: r.pick(&["", "DOMAIN", "домен"]).to_string(), user: r.pick(&names).to_string(), pw: r.pick(&pws).to_string(), from_hash: r.chance(1, 4), ra: r.chance(1, 4), id: 1 + (i % 2), flags, sc, ti, reply: "honest".into(), reply1: "honest".into() }
+    Case { dom: r.pick(&["", "DOMAIN", "домен"]).to_string(), user: r.pick(&names).to_string(), pw: r.pick(&pws).to_string(), from_hash: r.chance(1, 4), ra: r.chance(1, 4), id: 1 + (i % 3), flags, sc, ti, reply: "honest".into(), reply1: "honest".into() }
 }
 
 pub fn generate(thorough: bool, seed: u64, part: (usize, usize), em: &mut Emitter) {
@@ -206,7 +206,7 @@ pub fn generate(thorough: bool, seed: u64, part: (usize, usize), em: &mut Emitte
     for i in 0..(if thorough { 64 } else { 16 }) { let c = base_case(&mut r, i); if mine(&mut idx) { run(em, &c); } }
     // structured faults, each in several configurations
     let offs: &[i128] = &[0, 2, -1, 3, 255, 256, 257, 65536, 1 << 64, -256, 1i128 << 100];
-    let reps = if thorough { 6 } else { 2 };
+    let reps = if thorough { 6 } else { 3 };
     for i in 0..reps {
         let b = base_case(&mut r, i);
         let mut recipes: Vec<String> = vec!["wrongkey".into(), "othercert".into(), "reflect".into(), "badsign".into(), "clientkeys".into(), "unsealed".into(), "nopka".into(), "longform".into(), "ber83in".into(), "berindef".into(), "bercons".into(), "withnego".into(), "empty".into(),
@@ -217,6 +217,16 @@ pub fn generate(thorough: bool, seed: u64, part: (usize, usize), em: &mut Emitte
         // truncations: every prefix (thorough) / sampled
         let total = 4 + 5 + 4 + 16 + 270 + 2;   // upper bound of the honest reply length
         for n in 0..total { if thorough || n < 24 || n % 23 == 0 || n + 6 > total { let mut c = b.clone(); c.reply = format!("trunc:{}", n); if mine(&mut idx) { run(em, &c); } } }
+    }
+    // the whole Connector::connect with NLA, also on a Connector that was used before (an earlier
+    // complete connection, or an attempt refused by the server): the proof must still be the one
+    // for the configured account, and credentials go out as configured
+    if part.0 == 0 {
+        for reuse in 0..3u8 { for (pw, ra) in &[("P@ssw0rd!", false), ("pässwörd", true)] {
+            let cfg = crate::props::conn::Cfg { w: 800, h: 600, lay: 0x409, name: "rdp-rs".into(), dom: "DOM".into(), user: "user".into(), pw: pw.to_string(), hash: false, ra: *ra, blank: false, auto: false, nla: true, check: false };
+            let srv = crate::props::conn::SrvCfg { sel: 0, id: 1, uid: 1004, version: 0x80004, license_new: false, share: 0x103ea, caps: crate::props::conn::default_caps(), source: vec![], chal_flags: 0x62898235, inputs: vec![], script: vec![], reactivate: None, reuse, jrefuse: 0 };
+            let _ = crate::props::conn::emit(em, &cfg, &srv);
+        } }
     }
     // single-bit corruptions of the honest reply: all of them (thorough) / a stride (quick)
     let b = base_case(&mut r, 0);
